@@ -163,6 +163,15 @@ where
             let channel = request.header("Proxy-Channel", "inline");
             let inline = channel.eq_ignore_ascii_case("inline");
             let source = request.header("Udp-Bind-Source", "");
+            // the source a session stands for is a socket address, and the direct connector remembers it (which
+            // local port served it): taken as any text the client likes - 64 kB of it, another one per request -
+            // that memory grew until an allocation failed and the process went down
+            if !source.is_empty() && source.parse::<std::net::SocketAddr>().is_err() {
+                HttpResponse::new(400, "Bad Request")
+                    .write_to(socket)
+                    .await?;
+                bail!("Invalid Udp-Bind-Source: {} bytes, not a socket address", source.len());
+            }
             let udp_timeout = ctx_lock.default_udp_timeout();
             ctx_lock
                 .set_target(target)
